@@ -980,6 +980,25 @@ pub fn gen_run(rng: &mut Rng, sw: &Swarm, pool: &[Query], leap: &Leap, reset: bo
   RunScript { threads, policy: sw.policy.clone(), sched_seed, hash_seed, reset, fault_free: !any_fault, alloc_period }
 }
 
+/// Pre-warm run: one thread, `n` requests with (almost surely) distinct arguments all over the year
+/// range — lunar months, solar terms with their exact time, lunar days — to fill whatever the
+/// library remembers before the multi-thread runs of a never-restarted worker begin.
+pub fn gen_prewarm_run(rng: &mut Rng, n: usize, reset: bool) -> RunScript {
+  let k_term = kind_by_name("TERM").unwrap();
+  let k_ld = kind_by_name("LD.new").unwrap();
+  let mut ops: Vec<Op> = Vec::with_capacity(n);
+  for _ in 0..n {
+    let y = rng.range(1, 9998);
+    let q = match rng.below(20) {
+      0..=11 => Query::new(K_LM_FROM_YM, vec![y, rng.range(1, 12)]),
+      12..=16 => Query::new(k_term, vec![y, rng.range(0, 23)]),
+      _ => Query::new(k_ld, vec![y, rng.range(1, 12), rng.range(1, 29)]),
+    };
+    ops.push(Op::Q { q, stop: false });
+  }
+  RunScript { threads: vec![ops], policy: Policy::Seq, sched_seed: 0, hash_seed: rng.next_u64() | 1, reset, fault_free: true, alloc_period: 0 }
+}
+
 /// Lap run (Policy::Park): one thread walks through 60-300 consecutive lunar months, asking each
 /// one twice in a row (first time, then straight again); the other threads ask the first few of
 /// the same months in the same order (so that they meet the walker inside the same first-time
